@@ -2217,9 +2217,14 @@ func (s *Server) ServeConn(c net.Conn) error {
 		c = pic
 	}
 
+	// Connections begin at StateNew, whether they come from Serve or are
+	// handed to ServeConn directly.
+	s.setState(c, StateNew)
+
 	if !s.tryAcquireConcurrency() {
 		s.writeFastError(c, StatusServiceUnavailable, "The connection cannot be served because Server.Concurrency limit exceeded")
 		c.Close()
+		s.setState(c, StateClosed)
 		return ErrConcurrencyLimit
 	}
 	defer s.releaseConcurrency()
@@ -2417,18 +2422,21 @@ func (s *Server) serveConnCounted(c net.Conn, countConcurrency bool) error {
 				br = acquireReader(ctx)
 			}
 
-			// If this is a keep-alive connection we want to try and read the first bytes
-			// within the idle time.
-			if connRequestNum > 1 {
-				var b []byte
-				b, err = br.Peek(1)
-				if len(b) == 0 {
-					// If reading from a keep-alive connection returns nothing it means
-					// the connection was closed (either timeout or from the other side).
-					if err != io.EOF {
-						err = ErrNothingRead{error: err}
-					}
+			// Wait for the first byte of the request before reporting the
+			// connection as active. On a keep-alive connection this read
+			// happens within the idle time.
+			var b []byte
+			b, err = br.Peek(1)
+			if len(b) == 0 {
+				// If reading from a connection returns nothing it means
+				// the connection was closed (either timeout or from the other side).
+				if err != io.EOF {
+					err = ErrNothingRead{error: err}
 				}
+			} else {
+				// A reader that returns data together with an error reports
+				// the error again on the next read.
+				err = nil
 			}
 		} else {
 			// On keep-alive connections acquireByteReader will read the first byte
